@@ -752,6 +752,7 @@ func (v *v41) runTracked(op *op41, allowDup bool) {
 	}
 	s.seq = seq
 	s.present, s.op, s.ops, s.req, s.reply, s.res, s.cache, s.probed = true, op, ops, req, p.enc, p.res, cache, ""
+	v.remember(fmt.Sprintf("sess %x slot %d", s.sess.id[:4], s.idx), st, p.enc)
 	if !allowDup || inflight {
 		return
 	}
@@ -1733,13 +1734,23 @@ func (v *v41) differentRequestCheck(s *slot41, req []byte) {
 	v.logf("  same slot %d and sequence %d as %s, same operation types, other arguments -> %s %v", s.idx, s.seq, s.op.kind, statusName(st), resNames(p.res))
 	v.shape = append(v.shape, "other-arguments:"+statusName(st))
 	if bytes.Equal(p.enc, s.reply) {
-		v.violate(fmt.Sprintf("C19 different-request-answered-with-cached-reply v=4.1 op=%s", s.op.kind),
-			fmt.Sprintf("a request with the slot %d and sequence ID %d of %s and the same operation types but other arguments is not a retransmission; it was answered with the cached reply of that request (%s)", s.idx, s.seq, s.op, statusName(st)),
-			map[string]any{"request": opNames(decodeArgs(req))})
+		// Treated as a (false) retry of the slot's last request and
+		// answered with that request's reply: allowed, false-retry
+		// detection beyond the operation list shape is optional.
+		v.sit("false-retry-answered-with-originals-cached-reply-41")
 	} else if st == nfsv4.NFS4_OK {
-		v.violate("C19 false-retry-accepted v=4.1", "a request reusing a slot and sequence ID with other arguments was executed", nil)
-		v.abort = true
-		return
+		if whose, known := v.okReplies[string(p.enc)]; known {
+			how := "other-slot"
+			if whose == fmt.Sprintf("sess %x slot %d", s.sess.id[:4], s.idx) {
+				how = "older-reply"
+			}
+			v.violate(fmt.Sprintf("C19 different-request-answered-with-cached-reply v=4.1 op=%s via=%s", s.op.kind, how),
+				fmt.Sprintf("a request reusing slot %d and sequence ID %d with other arguments was answered with a reply given earlier on %s, which is not the slot's cached reply", s.idx, s.seq, whose), nil)
+		} else {
+			v.violate("C19 false-retry-accepted v=4.1", "a request reusing a slot and sequence ID with other arguments was executed", nil)
+			v.abort = true
+			return
+		}
 	}
 	if before != after {
 		v.violate("C19 false-retry-side-effect v=4.1", "a request reusing a slot and sequence ID with other arguments changed observable state",
